@@ -250,7 +250,7 @@ CLAUSES = [
                 "that are full or lack one chip or one core); non-trivial = "
                 "the result mixes a coarser-level region with level-3 regions "
                 "or with a second core mask (a partial collapse)",
-           examples={"quick": 1000, "thorough": 6000},
+           examples={"quick": 2000, "thorough": 6000},
            shards={"quick": 8, "thorough": 16}),
     Clause("chip-words", check_chip_words, enumerate=enum_chip_words,
            exhaustive=True,
